@@ -206,6 +206,9 @@ def main():
     )
     if os.environ.get("VERIF_REPLAY"):
         return replay_file(ck, os.environ["VERIF_REPLAY"])
+    for fn in os.listdir(ck.wd):        # violation files of earlier runs would be misleading
+        if fn.startswith("violation-") and fn.endswith(".json"):
+            os.remove(os.path.join(ck.wd, fn))
     try:
         r = tlc.run(SPEC, "HapCalling", "MC_%s.cfg" % tier, timeout=2400)
         ck.add_tlc(r, "HapCalling")
@@ -322,7 +325,7 @@ def trace_part(ck):
     nrun = 16 if tier == "quick" else 120
     data_dir = os.path.join(ck.wd, "data")       # copied by the spec -> code part
     tasks = [{"op": "programs", "seed": ck.seed * 1000 + i, "index": i, "data_dir": data_dir} for i in range(nrun)]
-    res = pool.map_tasks("impl.c13", tasks, mode="jit")
+    res = pool.map_tasks("impl.c13", tasks, mode="jit", nproc=min(env.NCPU, 6 if tier == "quick" else 12))
     events = []
     for t, rr in zip(tasks, res):
         if not rr["ok"]:
